@@ -13,6 +13,7 @@ pub type TokenAccountInterface = TokenAccount;
 pub struct AccountInfo<'a> { pub key: &'a Pubkey, pub is_signer: bool, pub is_writable: bool }
 pub struct Signer<'a> { pub info: AccountInfo<'a> }
 impl<'a> Signer<'a> {
+    pub fn key(&self) -> (r: Pubkey) ensures r == *self.info.key { *self.info.key }
     pub fn to_account_info(&self) -> (r: AccountInfo<'a>) ensures r == self.info { AccountInfo { key: self.info.key, is_signer: self.info.is_signer, is_writable: self.info.is_writable } }
 }
 impl<'a> std::ops::Deref for Signer<'a> {
